@@ -74,6 +74,10 @@ def render_stmts(stmts, files, ind=0) -> list[str]:
             out.append(f"{pad}.{s['d']} " + ", ".join(rexpr(e) for e in s["es"]))
         elif k == "ascii":
             out.append(f"{pad}.ascii '" + (s["src"] if "src" in s else "".join(chr(c) for c in s["s"])) + "'")
+        elif k == "table":
+            out.append(f"{pad}.table 'tbl{s['t']}.tbl'")
+        elif k == "text":
+            out.append(f"{pad}.text '" + "".join(x["v"] if x["k"] == "c" else f"[0x{x['v']:02X}]" for x in s["s"]) + "'")
         elif k == "incbin":
             files[s["file"]] = {"bytes": s["bs"]}
             out.append(f"{pad}.incbin '{s['file']}'")
@@ -134,6 +138,8 @@ def render_stmts(stmts, files, ind=0) -> list[str]:
 
 def render(prog: dict) -> tuple[str, dict]:
     files: dict = {}
+    for k, t in enumerate(prog.get("tables", []), 1):
+        files[f"tbl{k}.tbl"] = {"text": "".join("".join(f"{b:02X}" for b in e["code"]) + "=" + "".join(e["text"]) + "\n" for e in t)}
     lines = render_stmts(prog["body"], files)
     return "\n".join(lines) + "\n", files
 
@@ -169,6 +175,7 @@ class Gen:
         self.macro_defs: list[dict] = []
         self.consts: list[str] = []      # unique := names defined so far at top level (T0/T1-safe)
         self.files = 0
+        self.tables_on = rnd.random() < 0.35
 
     def fresh(self, p):
         self.n += 1
@@ -212,6 +219,12 @@ class Gen:
         r = self.rnd
         for _ in range(count):
             x = r.random()
+            if self.tables_on and in_macro is None and r.random() < 0.12:
+                if r.random() < 0.25 and depth > 0:
+                    out.append({"k": "table", "t": 2})
+                syms = [{"k": "c", "v": "a"}, {"k": "c", "v": "b"}, {"k": "c", "v": "c"}, {"k": "c", "v": "q"}, {"k": "j", "v": r.choice([0, 0x41, 0xFF])}]
+                out.append({"k": "text", "s": [r.choice(syms) for _ in range(r.randint(0, 6))]})
+                continue
             if x < 0.16:
                 out.append({"k": "label", "n": self.fresh("l")})
             elif x < 0.30:
@@ -290,8 +303,14 @@ class Gen:
         else:
             start = 0xC00000 if self.rom == "high" else 0x008000
             body.append({"k": "stareq", "e": num(start + r.choice([0, 0, 0x100, 0x7FF0]))})
+        if self.tables_on:
+            body.append({"k": "table", "t": 1})
         body += self.stmts(0, self.size, toplevel=True)
         prog = {"rom": "low" if self.rom in self.CUSTOM else self.rom, "defines": [], "body": body}
+        if self.tables_on:
+            prog["tables"] = [[{"text": ["a"], "code": [1]}, {"text": ["b"], "code": [2]}, {"text": ["a", "b"], "code": [3]},
+                               {"text": ["c"], "code": [0, 0x43]}],
+                              [{"text": ["a"], "code": [0x11]}, {"text": ["b", "a"], "code": [0x12, 0x13]}]]
         self.fill(prog["body"], [self.collect(prog["body"])], [])
         return prog
 
